@@ -2025,11 +2025,29 @@ class SpaceUpdater(SharedSpaceOperations):
 
         if self.manager._can_add(
             parent, name, EditableParentImpl):
+            # Nothing is created if a member cannot be copied
+            self._check_copied_names(source)
             return self._copy_space_recursively(
                 parent, source, name, defined_only
             )
         else:
             raise ValueError("Cannot create space '%s'" % name)
+
+    def _check_copied_names(self, source):
+        """Check the names of the members to copy
+
+        The copy and the spaces below it are new: the only names
+        their cells and child spaces can clash with are those of
+        the references of the model they are copied to.
+        """
+        global_refs = self.model.global_refs
+        for cells in source.cells.values():
+            if cells.is_defined() and cells.name in global_refs:
+                raise ValueError("Cannot create cells '%s'" % cells.name)
+        for child in source.named_spaces.values():
+            if child.name in global_refs:
+                raise ValueError("Cannot create space '%s'" % child.name)
+            self._check_copied_names(child)
 
     def _copy_space_recursively(
             self, parent, source, name, defined_only):
